@@ -1130,3 +1130,179 @@ func OutsFamily(thorough bool) []OutsParams {
 	}
 	return out
 }
+
+
+// ---------------------------------------------------------------------------
+// C11: fork identities.  A two-level nest of mapped calls whose sources are
+// arrays or typed maps with adversarial keys, literal or produced at run time.
+
+type KeyParams struct {
+	Outer    string // "" (no outer map), arr, map
+	OuterDyn bool   // the outer collection is a stage output
+	OuterSel int    // key set (map) or length (arr)
+	Inner    string // arr, map
+	InnerDyn bool
+	InnerSel int
+	Chunks   int // 0: no split leaf; n: the split leaf SUMS has n chunks
+}
+
+func (d KeyParams) String() string {
+	return fmt.Sprintf("keys{outer=%s/%v/%d inner=%s/%v/%d chunks=%d}", d.Outer, d.OuterDyn, d.OuterSel, d.Inner, d.InnerDyn, d.InnerSel, d.Chunks)
+}
+
+func keySource(kind string, dyn bool, sel int, call string) (*Exp, *T) {
+	if kind == "map" {
+		if dyn {
+			return Ref(call, "m"), TMapOf(IntT)
+		}
+		o := Obj(nil)
+		for i, k := range KeySet(sel) {
+			o.O[k] = Int(int64(i + 1))
+		}
+		return Lit(o), TMapOf(IntT)
+	}
+	if dyn {
+		return Ref(call, "a"), ArrayOf(IntT)
+	}
+	a := &Val{K: VArr}
+	for i := 0; i < sel; i++ {
+		a.A = append(a.A, Int(int64(100*(i+1))))
+	}
+	return Lit(a), ArrayOf(IntT)
+}
+
+// KeyFlow builds the program for d.
+func KeyFlow(d KeyParams) *Program {
+	p := baseProgram()
+	p.Desc = d.String()
+	keys := &Stage{Name: "KEYS", Fn: "KEYS", Ins: []Param{{T: IntT, Name: "sel"}},
+		Outs: []Param{{T: TMapOf(IntT), Name: "m"}, {T: ArrayOf(IntT), Name: "a"}}}
+	p.Stages = append(p.Stages, keys)
+	sel := func(kind string, s int) int64 {
+		if kind == "arr" {
+			return int64(-s)
+		}
+		return int64(s)
+	}
+	top := &Pipeline{Name: "TOP", Ins: []Param{{T: IntT, Name: "n"}}}
+	if d.InnerDyn {
+		top.Calls = append(top.Calls, &Call{Callee: "KEYS", Alias: "KIN", Binds: []Bind{{"sel", Lit(Int(sel(d.Inner, d.InnerSel)))}}})
+	}
+	if d.Outer != "" && d.OuterDyn {
+		top.Calls = append(top.Calls, &Call{Callee: "KEYS", Alias: "KOUT", Binds: []Bind{{"sel", Lit(Int(sel(d.Outer, d.OuterSel)))}}})
+	}
+	innerSrc, innerT := keySource(d.Inner, d.InnerDyn, d.InnerSel, "KIN")
+	collOf := func(kind string, t *T) *T {
+		if kind == "map" {
+			return TMapOf(t)
+		}
+		return ArrayOf(t)
+	}
+	// INNER maps the leaves over its collection input
+	inner := &Pipeline{Name: "INNER", Ins: []Param{{T: IntT, Name: "x"}, {T: innerT, Name: "c"}}}
+	inner.Calls = append(inner.Calls, &Call{Callee: "ADD", Map: true, Binds: []Bind{{"a", Self("x")}, {"b", SplitE(Self("c"))}}})
+	inner.Outs = append(inner.Outs, Param{T: collOf(d.Inner, IntT), Name: "zs"})
+	inner.Ret = append(inner.Ret, Bind{"zs", Ref("ADD", "sum")})
+	if d.Chunks > 0 {
+		xs := &Val{K: VArr}
+		for i := 0; i < d.Chunks; i++ {
+			xs.A = append(xs.A, Int(int64(i+1)))
+		}
+		inner.Calls = append(inner.Calls, &Call{Callee: "SUMS", Map: true, Binds: []Bind{{"xs", Lit(xs)}, {"k", SplitE(Ref("ADD", "sum"))}}})
+		inner.Outs = append(inner.Outs, Param{T: collOf(d.Inner, IntT), Name: "ts"})
+		inner.Ret = append(inner.Ret, Bind{"ts", Ref("SUMS", "total")})
+	}
+	if d.Outer == "map" && d.Inner == "map" {
+		// map<map<int>> cannot be declared: return the maps inside a struct
+		rs := &StructDecl{Name: "R"}
+		var ks []string
+		var vs []*Exp
+		for i, o := range inner.Outs {
+			rs.Fields = append(rs.Fields, Param{T: o.T, Name: o.Name})
+			ks = append(ks, o.Name)
+			vs = append(vs, inner.Ret[i].E)
+		}
+		p.Structs = append(p.Structs, rs)
+		inner.Outs = []Param{{T: StructT("R"), Name: "r"}}
+		inner.Ret = []Bind{{"r", StructE(ks, vs)}}
+	}
+	p.Pipelines = append(p.Pipelines, inner)
+	call := &Call{Callee: "INNER", Binds: []Bind{{"x", Self("n")}, {"c", innerSrc}}}
+	outT := func(t *T) *T { return t }
+	if d.Outer != "" {
+		outerSrc, _ := keySource(d.Outer, d.OuterDyn, d.OuterSel, "KOUT")
+		call.Map = true
+		call.Binds[0].E = SplitE(outerSrc)
+		outT = func(t *T) *T { return collOf(d.Outer, t) }
+	}
+	top.Calls = append(top.Calls, call)
+	for _, o := range inner.Outs {
+		top.Outs = append(top.Outs, Param{T: outT(o.T), Name: "r_" + o.Name})
+		top.Ret = append(top.Ret, Bind{"r_" + o.Name, Ref("INNER", o.Name)})
+	}
+	p.Pipelines = append(p.Pipelines, top)
+	p.Top = &Call{Callee: "TOP", Binds: []Bind{{"n", Lit(Int(7))}}}
+	FixUnused(p)
+	return p
+}
+
+// KeyFamily enumerates the C11 programs.
+func KeyFamily(thorough bool) []KeyParams {
+	var out []KeyParams
+	arrSizes := []int{1, 2, 10, 11}
+	if thorough {
+		arrSizes = []int{1, 2, 9, 10, 11, 100, 101}
+	}
+	type src struct {
+		kind string
+		sel  int
+	}
+	var inners []src
+	for i := range KeySets {
+		inners = append(inners, src{"map", i})
+	}
+	for _, n := range arrSizes {
+		inners = append(inners, src{"arr", n})
+	}
+	// single level: every key set / length, static and dynamic, with and without chunks
+	for _, in := range inners {
+		for _, dyn := range []bool{false, true} {
+			for _, ch := range []int{0, 2, 11} {
+				out = append(out, KeyParams{Inner: in.kind, InnerDyn: dyn, InnerSel: in.sel, Chunks: ch})
+			}
+		}
+	}
+	// every pair of short keys, produced at run time
+	for i := 0; i < PairSetCount(); i++ {
+		out = append(out, KeyParams{Inner: "map", InnerDyn: true, InnerSel: 1000 + i})
+	}
+	// two levels
+	outers := []src{{"arr", 2}, {"arr", 11}, {"map", 0}, {"map", 2}, {"map", 9}, {"map", 5}}
+	if thorough {
+		outers = nil
+		for i := range KeySets {
+			outers = append(outers, src{"map", i})
+		}
+		for _, n := range arrSizes {
+			outers = append(outers, src{"arr", n})
+		}
+	}
+	for _, o := range outers {
+		for _, in := range inners {
+			if !thorough && in.kind == "arr" && in.sel > 11 {
+				continue
+			}
+			for _, od := range []bool{false, true} {
+				for _, id := range []bool{false, true} {
+					for _, ch := range []int{0, 2} {
+						if !thorough && ch != 0 && (od != id) {
+							continue
+						}
+						out = append(out, KeyParams{Outer: o.kind, OuterDyn: od, OuterSel: o.sel, Inner: in.kind, InnerDyn: id, InnerSel: in.sel, Chunks: ch})
+					}
+				}
+			}
+		}
+	}
+	return out
+}
